@@ -303,6 +303,47 @@ let run_disp_pred_c10 (counts : bool) max_streams ops obs =
 
 
 (* disp_pred <c12|c13|c10|c11> <max_streams> | <observations> *)
+(* the per-address connecting slots of a digest (cn=<addr>:<tok>.<seq>+-+-+-,...), tokens as relabelled *)
+let ctable_of_digest (d : string) =
+  let parts = String.split_on_char ';' d in
+  let p = List.find (fun x -> String.length x > 3 && String.sub x 0 3 = "cn=") parts in
+  let v = String.sub p 3 (String.length p - 3) in
+  let lst = if v = "-" then [] else String.split_on_char ',' v in
+  List.map (fun t -> match String.split_on_char ':' t with
+      | [a; slots] ->
+        (z_of_string a, List.map (fun sl ->
+             if sl = "-" then None else
+               match String.split_on_char '.' sl with
+               | [tk; q] -> Some { cn_token = z_of_string tk; cn_seq = z_of_string q }
+               | _ -> failwith "disp_pred: bad slot") (String.split_on_char '+' slots))
+      | _ -> failwith "disp_pred: bad connecting entry") lst
+
+(* C13 "every pending connect is accounted for": c13_pending_ok on every step of the observations *)
+let run_c13_pending obs =
+  let parse tok =
+    match String.split_on_char '/' tok with
+    | [res; sent; _fwd; dg] ->
+      let kind = (match res with "OKa" -> 1 | "OKc" | "PENDING" -> 2 | "OKr" -> 3 | _ -> 0) in
+      let syns = if sent = "-" then [] else
+          List.filter_map (fun t -> match String.split_on_char ':' t with
+              | [a; "4"; _; q; _] -> Some (z_of_string a, z_of_string q)
+              | _ -> None) (String.split_on_char ',' sent) in
+      Some (kind, syns, ctable_of_digest dg)
+    | _ -> None in
+  let rec go pre i = function
+    | [] -> "OK"
+    | tok :: rest ->
+      (match parse tok with
+       | None -> "OK"
+       | Some (kind, syns, post) ->
+         let o = { po_kind = z_of_int kind; po_syns = syns; po_pre = pre; po_post = post } in
+         if not (c13_pending_ok o) then Printf.sprintf "FAIL c13_pending_ok step=%d" i
+         else go post (i + 1) rest) in
+  match obs with
+  | first :: rest -> (match parse first with Some (_, _, t0) -> go t0 0 rest | None -> "OK")
+  | [] -> "OK"
+
+(* disp_pred <c12|c13|c10|c11|c13p> <max_streams> | <observations> *)
 let run_disp_pred toks =
   match split_bar [] toks with
   | (("c10" | "c10n" as which) :: max_streams :: _random :: ops, obs) ->
@@ -345,6 +386,8 @@ let run_disp_pred toks =
            if not ok then Printf.sprintf "FAIL %s_step_ok step=%d" (if which = "c10" then "c12" else which) i
            else if which = "c12" && not (c12_syn_fresh_ok pre syns) then Printf.sprintf "FAIL c12_syn_fresh_ok step=%d" i
            else go post (i + 1) rest) in
+    if which = "c13p" then run_c13_pending obs
+    else
     if which = "c11" then
       (let rec first i = function
           | [] -> "OK"
